@@ -615,9 +615,10 @@ OBJ_EXC_BUILTIN = {"TypeError", "ValueError", "KeyError", "IndexError", "Attribu
 class Sibling:
     """another translated function of the same output file"""
 
-    def __init__(self, py_name, lean_name, kind, n_args, is_property=False, fn=None, recv="self"):
+    def __init__(self, py_name, lean_name, kind, n_args, is_property=False, fn=None, recv="self", state=None):
         self.py_name, self.lean_name, self.kind, self.n_args, self.is_property = py_name, lean_name, kind, n_args, is_property
         self.fn, self.recv = fn, recv
+        self.state = state       # for kind "mut": the parameter that is threaded when it is not the receiver
 
     def positional(self, tr, call: "ast.Call") -> list:
         """the call's arguments as the positional list of the callee's signature (keywords placed, defaults filled in)"""
@@ -1036,9 +1037,51 @@ class ObjTranslator:
             return f"(← getattr {self.recv_l} {json.dumps(attr)})", (lambda code, ind: self.set_self_attr(attr, f"(← {code})", ind))
         self.fail(v, "in-place update of something that is neither a local nor an attribute of self")
 
+    def mut_sibling_call(self, e):
+        """`self.sib(…, context, …)` where `sib` is translated with effects on the same threaded parameter"""
+        if isinstance(e, ast.Call) and isinstance(e.func, ast.Attribute) and self.is_self(e.func.value) \
+                and e.func.attr in self.siblings:
+            sb = self.siblings[e.func.attr]
+            if sb.kind == "mut" and sb.state and sb.state == self.state and self.kind == "mut" and self.state != self.recv:
+                return sb
+        return None
+
+    def hoist(self, e, ind: str):
+        """evaluate a call of a sibling with effects before the statement that uses its result:
+        returns (lines, replacement expression)"""
+        sb = self.mut_sibling_call(e)
+        args = sb.positional(self, e)
+        names = [x.arg for x in sb.fn.args.args if x.arg != sb.recv]
+        pos = names.index(sb.state)
+        if not (isinstance(args[pos], ast.Name) and args[pos].id == self.state):
+            self.fail(e, "the threaded object is not handed on as it is")
+        r, v = f"r_{e.lineno}", f"ret_{e.lineno}"
+        lines = [f"{ind}let {r} ← {sb.lean_name} W {self.recv_l} {' '.join(self.atom(x) for x in args)}",
+                 f"{ind}{self.state_l} := {r}.1",
+                 f"{ind}if let Outcome.raise exc_{e.lineno} := {r}.2 then",
+                 f"{ind}  return ({self.state_l}, Outcome.raise exc_{e.lineno})",
+                 f"{ind}let {lname(v)} := (match {r}.2 with | Outcome.ret x => x | Outcome.raise x => x)"]
+        self.declared.add(v)
+        return lines, ast.copy_location(ast.Name(id=v, ctx=ast.Load()), e)
+
     def stmt(self, s, ind: str) -> list[str]:
         if isinstance(s, ast.Expr) and isinstance(s.value, ast.Constant) and isinstance(s.value.value, str):
             return []
+        if isinstance(s, ast.For):
+            # `for … in enumerate(cls._read_items(value, context))`: the call with effects runs first
+            it = s.iter
+            inner = it.args[0] if (isinstance(it, ast.Call) and isinstance(it.func, ast.Name) and it.func.id == "enumerate"
+                                   and len(it.args) == 1 and not it.keywords) else it
+            if self.mut_sibling_call(inner) is not None:
+                lines, repl = self.hoist(inner, ind)
+                new_iter = repl if inner is it else ast.copy_location(
+                    ast.Call(func=it.func, args=[repl], keywords=[]), it)
+                s2 = ast.copy_location(ast.For(target=s.target, iter=new_iter, body=s.body, orelse=s.orelse), s)
+                return lines + self.stmt(s2, ind)
+        if isinstance(s, ast.Return) and s.value is not None and self.mut_sibling_call(s.value) is not None:
+            # `return self._invalid_value(error, raw, context, …)`: the sibling's outcome is this function's
+            lines, repl = self.hoist(s.value, ind)
+            return lines + [self.ret(self.atom(repl), ind)]
         if isinstance(s, ast.Return):
             if s.value is None:
                 return [self.ret("OVal.none", ind)]
@@ -1384,7 +1427,8 @@ def gen_group(repo: Path, notes: list, *, src_file: str, cls_name: str | None, f
             notes.append(f"untranslatable {e} ({cls_name or ns}.{py})")
             out.append(stub(lean, kind, n_args + n_extra + (1 if has_self else 0), py, kw=bool(fn.args.kwonlyargs)))
         siblings[py] = Sibling(py, lean, kind if has_self else "fn", n_args, is_property(fn), fn=fn,
-                               recv=(fn.args.args[0].arg if has_self and fn.args.args else "self"))
+                               recv=(fn.args.args[0].arg if has_self and fn.args.args else "self"),
+                               state=spec.get("state"))
     out += [f"end Utv.Gen.{ns}", ""]
     return "\n".join(out)
 
@@ -1671,7 +1715,8 @@ def gen_parse(repo: Path, notes: list, gate_ok: bool) -> str:
                           "_validate_contains)", "Parse", imports=["Utv.Gen.Field", "Utv.Gen.Options"])
     body = []
     part = gen_group(repo, notes, src_file="utype/parser/field.py", cls_name="ParserField", ns="Parse", title="",
-                     funcs=[dict(py="parse_value", arity=4, **common)], base_siblings=field_sibs,
+                     funcs=[dict(py="_invalid_value", lean="invalid_value", arity=5, **common),
+                            dict(py="parse_value", arity=4, **common)], base_siblings=field_sibs,
                      ignored_calls={"context.collect_waring"}, gate_ok=gate_ok)
     body += _group_body(part)
     part = gen_group(repo, notes, src_file="utype/parser/base.py", cls_name="BaseParser", ns="Parse", title="",
@@ -1680,6 +1725,7 @@ def gen_parse(repo: Path, notes: list, gate_ok: bool) -> str:
     body += _group_body(part)
     part = gen_group(repo, notes, src_file="utype/parser/rule.py", cls_name="Rule", ns="Parse", title="",
                      funcs=[dict(py="_validate_contains", lean="validate_contains", kind="pure", arity=1),
+                            dict(py="_read_items", lean="read_items", arity=4, **common),
                             dict(py="_parse_contains", lean="parse_contains", arity=3, **common)],
                      gate_ok=gate_ok)
     body += _group_body(part)
